@@ -273,6 +273,13 @@ impl Matrix {
             Err(_) => panic!("Could not understand ncols value."),
         };
 
+        // the empty matrix (no elements) is the only one with a 0 x 0 shape
+        if nrows == 0 && ncols == 0 && len == 0 {
+            m.nrows = 0;
+            m.ncols = 0;
+            return m;
+        }
+
         m.reshape_mut(nrows, ncols);
 
         m
